@@ -83,6 +83,7 @@ type pathCtx struct {
 	maxSteps    int64
 	depth       int
 	maxDepth    int
+	realLibs    map[string]bool // stand-ins switched off by the harness (symxRealLibrary)
 	permute     bool // symbolic map iteration order
 	permuteTwo  bool // ... restricted to insertion order / reverse insertion order per map
 	panicMode   string
